@@ -170,4 +170,121 @@ theorem pushDefaultKAll_total : ∀ (fs : BL) (k : Nat) (sfs : Fields) (len : Na
   | .cons _ _ _, _, .nil, _, _, hs, _ => by simp [ShapeL] at hs
 end
 
+/-! ### `serialize_none` -/
+
+theorem interpNull_nullable {dt : DataType} {n : Bool} {md : Metadata} {lv : LVal} (h : interpNull dt n md = .ok lv)
+    (hd : dt ≠ .null) : n = true := by
+  unfold interpNull at h
+  split at h
+  · simp [fail] at h
+  · cases n
+    · cases dt <;> simp [fail] at h <;> exact absurd rfl hd
+    · rfl
+
+theorem setValidity_false_total {v : Validity} (h : v.isSome = true) (i : Nat) : ∃ v', setValidity v i false = .ok v' := by
+  cases v with
+  | none => simp at h
+  | some bits => exact ⟨_, rfl⟩
+
+theorem bytesDT_ne_null (ty : BytesTy) : bytesDT ty ≠ .null := by cases ty <;> simp [bytesDT]
+theorem viewDT_ne_null (ty : ViewTy) : viewDT ty ≠ .null := by cases ty <;> simp [viewDT]
+theorem kindOf_ne_null {dt : DataType} {k : LeafKind} (h : kindOf dt = some k) : dt ≠ .null := by
+  intro hd; subst hd; simp [kindOf] at h
+
+theorem pushNone_complete : ∀ (b : B) (dt : DataType) (n : Bool) (md : Metadata) (lv : LVal), WFB b → Shape b dt n md →
+    total dt n md = true → interpNull dt n md = .ok lv → ∃ b', pushNone b = .ok b' ∧ room b' = room b
+  | .null p len, _, _, _, _, _, _, _, _ => ⟨_, rfl, rfl⟩
+  | .unknownVariant p, dt, n, md, lv, _, hs, _, hi => by
+    simp only [Shape] at hs
+    obtain ⟨rfl, hu⟩ := hs
+    simp [interpNull, hu, fail] at hi
+  | .leaf p k v vals, dt, n, md, lv, _, hs, _, hi => by
+    simp only [Shape] at hs
+    have hn := interpNull_nullable hi (kindOf_ne_null hs.1)
+    obtain ⟨v', hv⟩ := setValidity_false_total (hs.2.trans hn) vals.length
+    refine ⟨.leaf p k v' (vals ++ [0]), ?_, rfl⟩
+    simp only [pushNone, ctx_ok]
+    exact (bind_ok _ _ _).2 ⟨_, hv, rfl⟩
+  | .bytes p ty v offs data, dt, n, md, lv, hwf, hs, _, hi => by
+    simp only [Shape] at hs
+    simp only [WFB] at hwf
+    have hn := interpNull_nullable hi (hs.1 ▸ bytesDT_ne_null ty)
+    obtain ⟨v', hv⟩ := setValidity_false_total (hs.2.trans hn) (offs.length - 1)
+    refine ⟨.bytes p ty v' (offs ++ [(data.length : Int)]) data, ?_, by simp only [room, lastNat_snoc, lastNat_of_getLast hwf.1.2.1]⟩
+    simp only [pushNone, ctx_ok]
+    exact (bind_ok _ _ _).2 ⟨_, hv, (bind_ok _ _ _).2 ⟨_, duplicateLast_total hwf.1.2.1, rfl⟩⟩
+  | .bytesView p ty v views buf, dt, n, md, lv, _, hs, _, hi => by
+    simp only [Shape] at hs
+    have hn := interpNull_nullable hi (hs.1 ▸ viewDT_ne_null ty)
+    obtain ⟨v', hv⟩ := setValidity_false_total (hs.2.trans hn) views.length
+    refine ⟨.bytesView p ty v' (views ++ [packInline []]) buf, ?_, rfl⟩
+    simp only [pushNone, ctx_ok]
+    exact (bind_ok _ _ _).2 ⟨_, hv, rfl⟩
+  | .fixedSizeBinary p m len v buf cur, dt, n, md, lv, _, hs, _, hi => by
+    simp only [Shape] at hs
+    have hn := interpNull_nullable hi (by rw [hs.1]; simp)
+    obtain ⟨v', hv⟩ := setValidity_false_total (hs.2.trans hn) len
+    refine ⟨.fixedSizeBinary p m (len + 1) v' (buf ++ List.replicate m 0) cur, ?_, rfl⟩
+    simp only [pushNone, ctx_ok]
+    exact (bind_ok _ _ _).2 ⟨_, hv, rfl⟩
+  | .list p large fm v offs el, dt, n, md, lv, hwf, hs, _, hi => by
+    simp only [Shape] at hs
+    simp only [WFB] at hwf
+    obtain ⟨hv0, cname, cdt, cn, cmd, rfl, _⟩ := hs
+    have hn := interpNull_nullable hi (by cases large <;> simp)
+    obtain ⟨v', hv⟩ := setValidity_false_total (hv0.trans hn) (offs.length - 1)
+    refine ⟨.list p large fm v' (offs ++ [((dec el).length : Int)]) el, ?_, by simp only [room, lastNat_snoc, lastNat_of_getLast hwf.1.2.1]⟩
+    simp only [pushNone, ctx_ok]
+    exact (bind_ok _ _ _).2 ⟨_, hv, (bind_ok _ _ _).2 ⟨_, duplicateLast_total hwf.1.2.1, rfl⟩⟩
+  | .fixedSizeList p fm m len v cur el, dt, n, md, lv, hwf, hs, ht, hi => by
+    simp only [Shape] at hs
+    simp only [WFB] at hwf
+    obtain ⟨hv0, cname, cdt, cn, cmd, rfl, hsel⟩ := hs
+    have hn := interpNull_nullable hi (by simp)
+    subst hn
+    obtain ⟨v', hv⟩ := setValidity_false_total hv0 len
+    simp only [total, totalF, defOKF, Bool.and_eq_true, Bool.not_true, Bool.false_or] at ht
+    obtain ⟨el', hel, hr⟩ := pushDefaultK_total el m cdt cn cmd hwf.2.2 hsel ht.2
+    refine ⟨.fixedSizeList p fm m (len + 1) v' cur el', ?_, by simp only [room, hr]⟩
+    simp only [pushNone, ctx_ok]
+    exact (bind_ok _ _ _).2 ⟨_, hv, (bind_ok _ _ _).2 ⟨_, hel, rfl⟩⟩
+  | .map p mm v offs ks vs, dt, n, md, lv, hwf, hs, _, hi => by
+    simp only [Shape] at hs
+    simp only [WFB] at hwf
+    obtain ⟨hv0, ename, kn, kdt, knl, kmd, vn, vdt, vnl, vmd, rest, en, emd, sorted, rfl, _, _⟩ := hs
+    have hn := interpNull_nullable hi (by simp)
+    obtain ⟨v', hv⟩ := setValidity_false_total (hv0.trans hn) (offs.length - 1)
+    refine ⟨.map p mm v' (offs ++ [((dec ks).length : Int)]) ks vs, ?_, by simp only [room, lastNat_snoc, lastNat_of_getLast hwf.1.2.1]⟩
+    simp only [pushNone, ctx_ok]
+    exact (bind_ok _ _ _).2 ⟨_, hv, (bind_ok _ _ _).2 ⟨_, duplicateLast_total hwf.1.2.1, rfl⟩⟩
+  | .struct p len v fs cached next seen, dt, n, md, lv, hwf, hs, ht, hi => by
+    simp only [Shape] at hs
+    simp only [WFB] at hwf
+    obtain ⟨hv0, sfs, rfl, hsl⟩ := hs
+    have hn := interpNull_nullable hi (by simp)
+    subst hn
+    obtain ⟨v', hv⟩ := setValidity_false_total hv0 len
+    simp only [total, Bool.and_eq_true, Bool.not_true, Bool.false_or] at ht
+    obtain ⟨fs', hfs, hr⟩ := pushDefaultKAll_total fs 1 sfs len hwf.2.1 hsl ht.2
+    refine ⟨.struct p (len + 1) v' fs' cached next seen, ?_, by simp only [room, hr]⟩
+    simp only [pushNone, ctx_ok]
+    exact (bind_ok _ _ _).2 ⟨_, hv, (bind_ok _ _ _).2 ⟨_, hfs, rfl⟩⟩
+  | .dictionary p idx vals index, dt, n, md, lv, _, hs, _, hi => by
+    simp only [Shape] at hs
+    obtain ⟨⟨kdt, vdt, rfl⟩, hil, hnl, _⟩ := hs
+    have hn := interpNull_nullable hi (by simp)
+    obtain ⟨p', t, v, vals', rfl⟩ := isIntLeaf_form hil
+    simp only [B.isNullable] at hnl
+    obtain ⟨v', hv⟩ := setValidity_false_total (hnl.trans hn) vals'.length
+    refine ⟨.dictionary p (.leaf p' (.int t) v' (vals' ++ [0])) vals index, ?_, by simp only [room, keyRoom]⟩
+    rw [pushNone]
+    simp only [ctx_ok]
+    refine (bind_ok _ _ _).2 ⟨_, ?_, rfl⟩
+    simp only [pushNone, ctx_ok]
+    exact (bind_ok _ _ _).2 ⟨_, hv, rfl⟩
+  | .union p fs types offs cur, dt, n, md, lv, _, hs, _, hi => by
+    simp only [Shape] at hs
+    obtain ⟨ufs, mode, rfl, _⟩ := hs
+    simp [interpNull, isUnknownVariant, fail] at hi
+
 end SaModel.Build
